@@ -48,6 +48,7 @@ structure S where
   cur : Option (Transport × Nat × Outcome × Bool) := none
   wire : Option (Nat × Nat × Option Nat) := none      -- code, http status, retry
   eq : Bool := true
+  specX : Option (String × String) := none   -- fake-server ops: (what the SPEC tables prescribe, description)
   fails : List String := []
 
 def handler : Handler S where
@@ -65,13 +66,59 @@ def handler : Handler S where
             "obs sink eq=1"])
         else if tr = "http" then
           let ct := if enc = "json" then CType.json else CType.proto
-          let (w, calls) := httpFront ⟨auth, true, true, true, ct, true, items⟩ out
+          let (w, calls) := httpFront ⟨auth, true, true, true, ct, true, true, items⟩ out
           ({ s with cur := some (.http, items, out, auth == some false), wire := none, eq := true },
            [s!"obs wire code={w.bodyCode} http={w.status} retry={showOpt w.retryAfter} calls={calls}",
             s!"obs verdict {showVerdict (expHttp w)} calls={calls}",
             "obs sink eq=1"])
         else (s, ["obs bad-op"])
       | _, _, _, _, _ => (s, ["obs bad-op"])
+    | "xhttp" :: rest =>
+      -- the otlphttp exporter against a scripted server: any status, Retry-After form, body
+      let ra : Option RetryAfter :=
+        match (kv rest "ra").map (fun s => s.splitOn ":") with
+        | some ["absent"] => some .absent
+        | some ["bad"] => some .unusable
+        | some ["s", n] => n.toInt?.map RetryAfter.seconds
+        | some ["d", n] => n.toInt?.map (fun d => RetryAfter.date (d * 1000000000))
+        | _ => none
+      let body : Option SuccessBody :=
+        match kv rest "body" with
+        | some "empty" => some .empty
+        | some "response" => some .response
+        | some "partial" => some .response
+        | some "other" => some .otherContentType
+        | some "undecodable" => some .undecodable
+        | some "huge" => some .undecodable
+        | some "status" => some .empty      -- outside 2xx the body is irrelevant (`C15_expHttpX_irrelevant_inputs`)
+        | some "garbage" => some .empty
+        | _ => none
+      match kvNat rest "status", ra, body with
+      | some st, some ra, some body =>
+        let shownOf := fun (v : VerdictI) => match v, ra with
+          | .throttle _, .date _ => "throttle-date"       -- `time.Until(date)`: compared up to clock granularity by the harness
+          | .success, _ => "success"
+          | .permanent, _ => "permanent"
+          | .retryable, _ => "retryable"
+          | .throttle d, _ => s!"throttle:{d}"
+        ({ s with cur := none, specX := some (shownOf (specHttpX ⟨st, ra, body⟩), "http-exporter " ++ " ".intercalate rest) },
+         [s!"obs xverdict {shownOf (expHttpX ⟨st, ra, body⟩)}"])
+      | _, _, _ => (s, ["obs bad-op"])
+    | "xgrpc" :: rest =>
+      let ri : Option (Option Int) := match kv rest "ri" with
+        | some "-" => some none
+        | some n => n.toInt?.map some
+        | none => none
+      match kvNat rest "code", ri with
+      | some c, some ri =>
+        let shownOf := fun (v : VerdictI) => match v with
+          | .success => "success"
+          | .permanent => "permanent"
+          | .retryable => "retryable"
+          | .throttle d => s!"throttle:{d}"
+        ({ s with cur := none, specX := some (shownOf (specGrpcX c ri), "grpc-exporter " ++ " ".intercalate rest) },
+         [s!"obs xverdict {shownOf (expGrpcX c ri)}"])
+      | _, _ => (s, ["obs bad-op"])
     | "conc" :: rest =>
       -- k well-formed requests with an accepting consumer: each is acknowledged and delivered once, as sent
       -- (`C15_consumer_once`, `C15_success_iff_*`, `C15_payload_partial` per request); their overlap in time is
@@ -82,13 +129,15 @@ def handler : Handler S where
     | "raw" :: rest =>
       match kv rest "tr", kv rest "kind", (kv rest "auth").bind parseAuth, (kv rest "out").bind parseOutcome with
       | some "http", some kind, some auth, some out =>
-        let base : HttpReq := ⟨auth, true, true, true, .proto, true, 1⟩
+        let base : HttpReq := ⟨auth, true, true, true, .proto, true, true, 1⟩
         let rq : Option HttpReq :=
           (kind.splitOn "+").foldl (fun acc k =>
             acc.bind (fun (r : HttpReq) =>
               match k with
               | "method" => some { r with isPost := false }
               | "ctype" => some { r with ctype := .other }
+              | "json" => some { r with ctype := .json }
+              | "unreadable" => some { r with bodyReads := false }     -- truncated / corrupt stream / oversized
               | "badbody" => some { r with bodyDecodes := false }
               | "badbodyjson" => some { r with ctype := .json, bodyDecodes := false }
               | "badpath" => some { r with pathKnown := false }
@@ -119,6 +168,16 @@ def handler : Handler S where
       match kvNat rest "code", kvNat rest "http", (kv rest "retry").bind parseOptNat with
       | some c, some h, some r => { s with wire := some (c, h, r) }
       | _, _, _ => { s with fails := "sig=C15/harness/unparsable-wire" :: s.fails }
+    | _ :: "xverdict" :: v :: _ =>
+      -- the sender's classification against the hand-written specification (not the regenerated tables)
+      match s.specX with
+      | some (want, what) =>
+        if v = want then { s with specX := none }
+        else
+          let t := if what.startsWith "grpc" then "grpc" else "http"
+          let kind := if v = "panic" then "panic" else if want.startsWith "throttle" then "requested-delay-not-honoured" else "classification-differs-from-spec"
+          { s with specX := none, fails := s!"sig=C15/{t}-exporter/{kind} {what} spec={want} exporter={v}" :: s.fails }
+      | none => { s with fails := "sig=C15/harness/xverdict-without-op" :: s.fails }
     | _ :: "conc" :: rest =>
       match kvNat rest "sent", kvNat rest "acked", kvNat rest "delivered", kvNat rest "matched" with
       | some k, some a, some d, some m =>
